@@ -365,7 +365,11 @@ SOp(w, ev) ==
       props == {prop} \cup (IF ev.path \in {"lend_get", "lend2_get", "lend_get_mut", "lentry_get", "lmaybe_get",
                                              "r_get_other", "rl_get_other", "rm_get_other", "rm_get_other_mut", "rm_get_other_mut_replace"} THEN {"C06"} ELSE {})
                       \cup (IF ev.path \in {"r_get_other", "rl_get_other", "rm_get_other", "rm_get_other_mut", "rm_get_other_mut_replace"} THEN {"C13"} ELSE {})
-      mk(w2, exp) == [w |-> w2, f |-> IF bad(exp) THEN {F(p, "storage op result", <<ev.cls, ev.path, s, h, exp>>) : p \in props} ELSE {}]
+      \* owns (restricted lending items asked for another entity): what the item itself carries before and after
+      \* the lookup, and whether the other entity is the item's own - if it is not, the item still carries its own
+      ownBad == IF Has(ev, "owns") THEN {i \in 1..Len(ev.owns) : ~ev.owns[i][3] /\ ev.owns[i][1] # ev.owns[i][2]} ELSE {}
+      mk(w2, exp) == [w |-> w2, f |-> (IF bad(exp) THEN {F(p, "storage op result", <<ev.cls, ev.path, s, h, exp>>) : p \in props} ELSE {})
+                                      \cup (IF ownBad # {} THEN {F(p, "an item of a restricted join carries another component after looking up another entity (positions)", ownBad) : p \in props} ELSE {})]
       viaEntry == ev.path \in {"entry_replace", "entry_insert"}
   IN CASE ev.cls = "read"   -> mk(w, Cur(w, s, h))
        [] ev.cls = "write"  ->
